@@ -476,6 +476,11 @@ func (s *Sim) doAction(a *Action) {
 			// takes effect after it: the object is then being stopped, not started
 			if o.stopCalls == stopsAtCall {
 				o.started, o.stopped = true, false
+			} else {
+				// a stop call began while this Start was under way: which of the two took effect last is the
+				// library's business (a Stop that comes while Start is still shutting the cancelled previous run
+				// down stops that run; the new one is installed afterwards) - neither "started" nor "stopped"
+				o.started, o.stopped = false, false
 			}
 			o.startGen++
 			o.startCancel = scancel
@@ -616,7 +621,11 @@ func (s *Sim) doAction(a *Action) {
 		}
 		// (a Start that returned meanwhile but whose call had begun before this stop call began is the earlier
 		// of the two: this stop took effect after it)
-		if err == nil && (o.startGen == sg || o.startCalls == startsAtCall) {
+		if err == nil && o.startGen != sg && o.startCalls == startsAtCall {
+			// a Start whose call had begun before this stop call began has returned meanwhile: the two overlapped,
+			// and which took effect last is the library's business (see the Start branch)
+			o.started, o.stopped = false, false
+		} else if err == nil && (o.startGen == sg || o.startCalls == startsAtCall) {
 			o.stopped = true
 			o.byCancel = a.Kind == ActCancelCtx
 		}
